@@ -24,7 +24,7 @@ extern "C" {
 #include <eav.h>
 #include <eav/auto_tld.h>
 }
-namespace rt { void name_range(const void *p, size_t n, const std::string &name); void clear_named(); }
+namespace rt { void name_range(const void *p, size_t n, const std::string &name); void clear_named(); const char *set_process_locale(const char *name); }
 
 using std::string;
 using std::vector;
@@ -35,6 +35,7 @@ static const char *KNAME[NKINDS] = { "SET_RFC", "SET_TLD", "SET_ALLOW", "SETUP",
 struct Op { int t = 0; Kind k = SETUP; long long v = 0; string a; };
 struct Plan {
     string cfg = "random"; uint64_t seed = 0; long long index = -1; int nthreads = 2;
+    string locale = "C";        // process locale during the run (the library must not depend on it, nor change it)
     vector<Op> ops;
     int policy = 1; uint64_t den = 16, quantum = 2, sched_seed = 1; int depth = 2;
     vector<rt::Switch> switches; bool has_switches = false;
@@ -42,7 +43,7 @@ struct Plan {
 
 static sj::Value plan_to_json(const Plan &p) {
     sj::Value j = sj::Value::object();
-    j.set("prop", "C14"); j.set("cfg", p.cfg); j.set("seed", (long long)p.seed); j.set("index", p.index); j.set("nthreads", p.nthreads);
+    j.set("prop", "C14"); j.set("cfg", p.cfg); j.set("seed", (long long)p.seed); j.set("index", p.index); j.set("nthreads", p.nthreads); j.set("locale", p.locale);
     sj::Value s = sj::Value::object(); s.set("policy", p.policy); s.set("den", (long long)p.den); s.set("quantum", (long long)p.quantum); s.set("depth", p.depth); s.set("seed", (long long)p.sched_seed);
     j.set("sched", s);
     sj::Value a = sj::Value::array();
@@ -61,7 +62,7 @@ static sj::Value plan_to_json(const Plan &p) {
     return j;
 }
 static Plan plan_from_json(const sj::Value &j) {
-    Plan p; p.cfg = j.gets("cfg", "random"); p.seed = (uint64_t)j.geti("seed"); p.index = j.geti("index", -1); p.nthreads = (int)j.geti("nthreads", 2);
+    Plan p; p.cfg = j.gets("cfg", "random"); p.seed = (uint64_t)j.geti("seed"); p.index = j.geti("index", -1); p.nthreads = (int)j.geti("nthreads", 2); p.locale = j.gets("locale", "C");
     if (p.nthreads < 1) p.nthreads = 1;
     if (p.nthreads > 16) p.nthreads = 16;
     const sj::Value *s = j.get("sched");
@@ -201,6 +202,7 @@ static void run_plan(const Plan &p, bool want_log, RunOut &ro, bool count = true
     auto viol = [&](const string &c, const string &d) { Viol v; v.cls = c; v.detail = d; ro.viols.push_back(v); rec("VIOLATION " + c + " | " + d); };
     Shared sh; sh.plan = &p;
     rt::clear_named();
+    if (!rt::set_process_locale(p.locale.c_str())) rt::set_process_locale("C");
     int si = 0;
     for (auto &op : p.ops) if ((op.k == IS_EMAIL || op.k >= LOCAL) && !sh.strings.count(op.a)) {
         char *m = (char *)malloc(op.a.size() + 1); memcpy(m, op.a.data(), op.a.size()); m[op.a.size()] = 0;
@@ -325,7 +327,8 @@ static void build_pool() {
 static Plan gen_plan(const string &cfg, uint64_t seed, long long index) {
     Plan p; p.cfg = cfg; p.seed = seed; p.index = index;
     uint64_t rs = sim_mix64(seed ^ sim_mix64((uint64_t)index * 0x9E3779B97F4A7C15ULL + 14));
-    sim_rng w = sim_derive(rs, 1), s = sim_derive(rs, 2);
+    sim_rng w = sim_derive(rs, 1), s = sim_derive(rs, 2), lr = sim_derive(rs, 3);
+    p.locale = sim_below(&lr, 3) == 0 ? "C.UTF-8" : "C";
     static const int TS[] = { 2, 2, 2, 3, 3, 4, 4, 8, 16 };
     p.nthreads = TS[sim_below(&w, 9)];
     if (sim_below(&w, 12) == 0 && !g_idn_tld_addrs.empty()) {
